@@ -242,23 +242,23 @@ fn sc_reverse_light<Ty: EdgeType, const P: usize, const G: usize>() {
 }
 
 fn sc_retain_nodes_after_hole<Ty: EdgeType, const P: usize, const G: usize>() {
+    // prefixes 1 and 2 leave a vacancy below a live node: the predicate must still see every live node
     let mut s = prefix::<Ty>(P);
-    s.add_node(13);
-    let keep: [bool; 4] = kani::any();
-    let mut visited = [false; 4];
+    let keep: [bool; 3] = kani::any();
+    let mut visited = [false; 3];
     s.g.retain_nodes(|_, n| {
         visited[n.index()] = true;
         keep[n.index()]
     });
     let mut i = 0;
-    while i < 4 {
+    while i < 3 {
         assert!(visited[i] == s.md.has_node(i), "the predicate sees exactly the live nodes");
         if s.md.has_node(i) && !keep[i] {
             s.md.remove_node(i);
         }
         i += 1;
     }
-    kani::cover!(!keep[3] && keep[0], "a rejected live node above the hole");
+    kani::cover!(!keep[2], "a rejected live node above the hole");
     observe::<Ty, G>(&s.g, &s.md);
     kani::cover!(true, "end of harness reached");
 }
@@ -1777,28 +1777,28 @@ fn c02_reverse_with_vacancies_g3_di() {
     sc_reverse_with_vacancies::<Directed, 3>()
 }
 
-// TIER: quick BOUNDS: prefix 1 + add_node; retain_nodes with 4 symbolic keep bits; Directed; observers: counts+nodes
+// TIER: quick BOUNDS: prefix 1 (vacancy below live nodes); retain_nodes with 3 symbolic keep bits; Directed; observers: counts+nodes
 #[kani::proof]
 #[kani::unwind(7)]
 fn c02_retain_nodes_p1_g0_di() {
     sc_retain_nodes_after_hole::<Directed, 1, 0>()
 }
 
-// TIER: thorough BOUNDS: prefix 1 + add_node; retain_nodes with 4 symbolic keep bits; Directed; observers: find/contains
+// TIER: thorough BOUNDS: prefix 1 (vacancy below live nodes); retain_nodes with 3 symbolic keep bits; Directed; observers: find/contains
 #[kani::proof]
 #[kani::unwind(7)]
 fn c02_retain_nodes_p1_g2_di() {
     sc_retain_nodes_after_hole::<Directed, 1, 2>()
 }
 
-// TIER: quick BOUNDS: prefix 2 + add_node; retain_nodes with 4 symbolic keep bits; Directed; observers: counts+nodes
+// TIER: quick BOUNDS: prefix 2 (vacancy below live nodes); retain_nodes with 3 symbolic keep bits; Directed; observers: counts+nodes
 #[kani::proof]
 #[kani::unwind(7)]
 fn c02_retain_nodes_p2_g0_di() {
     sc_retain_nodes_after_hole::<Directed, 2, 0>()
 }
 
-// TIER: thorough BOUNDS: prefix 2 + add_node; retain_nodes with 4 symbolic keep bits; Directed; observers: find/contains
+// TIER: thorough BOUNDS: prefix 2 (vacancy below live nodes); retain_nodes with 3 symbolic keep bits; Directed; observers: find/contains
 #[kani::proof]
 #[kani::unwind(7)]
 fn c02_retain_nodes_p2_g2_di() {
@@ -1868,28 +1868,28 @@ fn c02_reverse_with_vacancies_g3_un() {
     sc_reverse_with_vacancies::<Undirected, 3>()
 }
 
-// TIER: thorough BOUNDS: prefix 1 + add_node; retain_nodes with 4 symbolic keep bits; Undirected; observers: counts+nodes
+// TIER: thorough BOUNDS: prefix 1 (vacancy below live nodes); retain_nodes with 3 symbolic keep bits; Undirected; observers: counts+nodes
 #[kani::proof]
 #[kani::unwind(7)]
 fn c02_retain_nodes_p1_g0_un() {
     sc_retain_nodes_after_hole::<Undirected, 1, 0>()
 }
 
-// TIER: thorough BOUNDS: prefix 1 + add_node; retain_nodes with 4 symbolic keep bits; Undirected; observers: find/contains
+// TIER: thorough BOUNDS: prefix 1 (vacancy below live nodes); retain_nodes with 3 symbolic keep bits; Undirected; observers: find/contains
 #[kani::proof]
 #[kani::unwind(7)]
 fn c02_retain_nodes_p1_g2_un() {
     sc_retain_nodes_after_hole::<Undirected, 1, 2>()
 }
 
-// TIER: thorough BOUNDS: prefix 2 + add_node; retain_nodes with 4 symbolic keep bits; Undirected; observers: counts+nodes
+// TIER: thorough BOUNDS: prefix 2 (vacancy below live nodes); retain_nodes with 3 symbolic keep bits; Undirected; observers: counts+nodes
 #[kani::proof]
 #[kani::unwind(7)]
 fn c02_retain_nodes_p2_g0_un() {
     sc_retain_nodes_after_hole::<Undirected, 2, 0>()
 }
 
-// TIER: thorough BOUNDS: prefix 2 + add_node; retain_nodes with 4 symbolic keep bits; Undirected; observers: find/contains
+// TIER: thorough BOUNDS: prefix 2 (vacancy below live nodes); retain_nodes with 3 symbolic keep bits; Undirected; observers: find/contains
 #[kani::proof]
 #[kani::unwind(7)]
 fn c02_retain_nodes_p2_g2_un() {
